@@ -344,7 +344,7 @@ func c17Extra(rc *RunCtx) error {
 	var sb2 strings.Builder
 	nShort := 0
 	for _, p := range pats {
-		if len(p) <= 2 || (rc.Tier == "thorough" && len(p) <= 3) {
+		if len(p) <= 3 || rc.Tier == "thorough" {
 			sb2.WriteString(strconv.Quote(p))
 			sb2.WriteByte('\n')
 			nShort++
@@ -570,7 +570,7 @@ func init() {
 			if tier == "thorough" {
 				n = 4
 			}
-			return map[string]interface{}{"patterns": fmt.Sprintf("every string of length 0..%d over {a b * ? . + ( ) | ^ $ { } [ ] \\ LF} (enumerated)", n), "keys": "every ASCII string of length 0..8 (decided by the solver per pattern)", "end_to_end": "KEYS p and SCAN 0 MATCH p on the example store holding all 30 keys of length 1..2 over {a b . + LF}, patterns of length <= 2 (thorough 3)"}
+			return map[string]interface{}{"patterns": fmt.Sprintf("every string of length 0..%d over {a b * ? . + ( ) | ^ $ { } [ ] \\ LF} (enumerated)", n), "keys": "every ASCII string of length 0..8 (decided by the solver per pattern)", "end_to_end": "KEYS p and SCAN 0 MATCH p on the example store holding all 30 keys of length 1..2 over {a b . + LF}, for every enumerated pattern"}
 		},
 		Assumptions: []string{
 			"the pattern side is enumerated (compiling a symbolic pattern would mean symbolically executing regexp/syntax); the key side is universally quantified by the SMT string solver (z3 5.1.0 sequence/regex theory)",
